@@ -142,8 +142,13 @@ def size_of(case):
 
 def run(chk):
     quick = chk.tier == "quick"
-    chk.prove(["extract/Extract_C05.vo"])
-    chk.trusted += ["extraction: ExtrOcamlBasic, ExtrOcamlNatInt (nat -> OCaml int; indices and lengths < 100 here); Z and Q stay inductive",
+    chk.prove(["extract/Extract_C05.vo"], extra_props=["Properties_C05_source.v"])
+    chk.trusted += ["translator/gen_operator.py (statement splitter + shape recognition, ~1800 lines of Python): reads, one generated file per C++ function, the "
+                    "loop nest of normalize_and_insert and the loop body of actRight(monomial, ket) statement by statement, the insert idioms, operator==, "
+                    "the arithmetic operators, commutes / getCommutator, the presets and their shortcuts; what it cannot read falls back to the committed "
+                    "snapshot and is then covered by the differential runs only; boost::operators, std::map, std::equal, std::copy, boost::dynamic_bitset "
+                    "semantics as modelled in coq/theories/PolyGen.v",
+                    "extraction: ExtrOcamlBasic, ExtrOcamlNatInt (nat -> OCaml int; indices and lengths < 100 here); Z and Q stay inductive",
                     "ocaml/driver_c05.ml, harness/h_c05.cpp (RPN interpreters), Python comparison with exact fractions"]
     chk.assume += ["coefficients are small dyadic rationals, for which the C++ threshold |c| < 100*eps coincides with the model's exact zero test",
                    "indices are < the size of the Fock state (beyond that boost::dynamic_bitset is undefined behaviour; excluded by C20)",
